@@ -183,6 +183,13 @@ def run(tier: str, seed: int) -> int:
     run_.exhaustive = True
     run_.assumptions = ["numpy cos for analytic values", "tolerance 1e-10 relative"]
     shutil.rmtree(work, ignore_errors=True)
+    # the composed machine (spec/Session.tla): multi-step API sessions generated by TLC -simulate, replayed call by call; this check
+    # reports the mismatches of the operations it owns (resample)
+    if True:
+        from .. import session
+        import jax.numpy as _jnp
+        import exponax as _ex
+        session.run_for(run_, tier, seed, _ex, _jnp, ['resample'], PID)
     return run_.finish()
 
 
